@@ -321,6 +321,15 @@ def gen_fn(fs, cfg, log, vac=False):
     # N2: drop attributes inside bodies (#[allow(..)] on statements)
     body = re.sub(r'#\[allow\([^\]]*\)\]\s*', '', body)
     body = apply_rules(body, fs, log, where)
+    # global normalisations (applied after the unit's own rules, to whatever they left): semantics-preserving
+    # rewrites of std/PollArray/PollVec helper calls that Verus cannot read (logged when they match)
+    for (gname, grx, grepl) in rulesmod.GLOBAL_RULES:
+        if callable(grx):
+            body, k = grx(body)
+        else:
+            body, k = re.subn(grx, grepl, body, flags=re.S)
+        if k:
+            log.append(dict(where=where, rule=gname, matches=k, required=None))
     # text inserts (before loops are located: inserts may not add loops)
     for (kind, rx, nth, opt, text) in fs.inserts:
         ms = list(re.finditer(rx, body, re.S))
